@@ -45,7 +45,8 @@ void verif_entropy_clear(void) { plan_active = 0; }
 long verif_entropy_calls(void) { return plan_calls; }
 
 /* process-wide: answer every 16-byte request (the seed std's HashMap RandomState draws once per thread) with a
- * constant, so that hash-map iteration order is a function of the work a thread has done, not of the run */
+ * per-thread deterministic sequence, so that hash-map iteration order is a function of the work a thread has
+ * done, not of the run */
 static volatile int pin16 = 0;
 void verif_entropy_pin16(int on) { pin16 = on; }
 static volatile long pin16_served = 0;
@@ -53,7 +54,12 @@ long verif_entropy_pin16_served(void) { return pin16_served; }
 
 ssize_t getrandom(void *buf, size_t len, unsigned int flags) {
     if (pin16 && len == 16) {
+        /* the k-th 16-byte draw of a thread is a function of k only: the first one (std's per-thread hash seed)
+         * is the constant it always was; later ones (e.g. UUIDs) differ from each other but repeat run to run */
+        static __thread unsigned long pin16_n = 0;
         memset(buf, 0x5a, 16);
+        unsigned long k = pin16_n++;
+        for (int i = 0; i < 8; i++) ((unsigned char *)buf)[i] ^= (unsigned char)(k >> (8 * i));
         __sync_fetch_and_add(&pin16_served, 1);
         return 16;
     }
